@@ -675,13 +675,18 @@ pub fn gen_case(seed: u64, hist: u64) -> SchedCase {
     let w = r.below(100);
     let faults = if w < 60 {
         vec![]
-    } else if w < 78 {
+    } else if w < 74 {
         vec![FaultSpec { role: Role::Worker, kind: Sk::Sync, nth: r.below(24) as u32, action: "eio".into() }]
-    } else if w < 92 {
+    } else if w < 85 {
         let n = r.below(20) as u32;
         vec![FaultSpec { role: Role::Worker, kind: Sk::Sync, nth: n, action: "eio".into() }, FaultSpec { role: Role::Worker, kind: Sk::Sync, nth: n + 1, action: "eio".into() }]
     } else if w < 96 {
-        let action = if r.chance(1, 2) { format!("short:{}", r.range(1, 25)) } else { format!("partial:{}", r.range(1, 25)) };
+        // a write of the worker fails outright, is cut short, or fails after a part was written
+        let action = match r.below(3) {
+            0 => "eio".to_string(),
+            1 => format!("short:{}", r.range(1, 25)),
+            _ => format!("partial:{}", r.range(1, 25)),
+        };
         vec![FaultSpec { role: Role::Worker, kind: Sk::Write, nth: r.below(12) as u32, action }]
     } else {
         vec![FaultSpec { role: Role::Caller, kind: Sk::Create, nth: r.range(1, 6) as u32, action: "eio".into() }]
